@@ -21,8 +21,9 @@ func H06m_MutateBetween() {
 	FillSmall = !vrt.Thorough()
 	x.Fill("in")
 	FillSmall = false
-	buf := make([]byte, 0, 64)
-	first, err := p.Marshal(buf, &x.V)
+	// nil buffer first (Marshal measures the value), then the usual
+	// "one record, one buffer, both re-used" write loop
+	first, err := p.Marshal(nil, &x.V)
 	vrt.Assert("first marshal ok", err == nil)
 	// mutate the nested struct in place (its encoded size changes)
 	x.V.A.Y = vrt.String("newY", vrt.Choice("newY.len", 4))
@@ -50,8 +51,14 @@ func H06m_MapMutate() {
 	for _, k := range keys {
 		in.M[k] = 1
 	}
-	buf := make([]byte, 0, 256)
-	first, err := p.Marshal(buf, &in)
+	c, cerr := p.CodecForType(reflect.TypeOf(in.M))
+	vrt.Assert("codec ok", cerr == nil)
+	if cerr != nil {
+		return
+	}
+	mp := *(*unsafe.Pointer)(unsafe.Pointer(&in.M))
+	vrt.Assert("Size == len(Append) before the mutation", c.Size(mp, nil) == len(c.Append(nil, mp, nil)))
+	first, err := p.Marshal(nil, &in) // nil: Marshal sizes the value itself
 	vrt.Assert("first marshal ok", err == nil)
 	nv := vrt.Int("nv")
 	in.M["e"] = nv
@@ -64,10 +71,10 @@ func H06m_MapMutate() {
 	v, ok := out.M["e"]
 	vrt.Assert("replaced value present", ok && len(out.M) == len(keys))
 	vrt.Assert("replaced value", vrt.Implies(ok, v == nv))
-	c, err := p.CodecForType(reflect.TypeOf(in.M))
-	vrt.Assert("codec ok", err == nil)
-	if err == nil {
-		mp := *(*unsafe.Pointer)(unsafe.Pointer(&in.M))
-		vrt.Assert("Size == len(Append) after the mutation", c.Size(mp, nil) == len(c.Append(nil, mp, nil)))
-	}
+	vrt.Assert("Size == len(Append) after the mutation", c.Size(mp, nil) == len(c.Append(nil, mp, nil)))
+	tag := []byte{0x0b}
+	vrt.Assert("Size(tag) == len(Append) after the mutation", c.Size(mp, tag) == len(c.Append(nil, mp, tag)))
 }
+
+// the Size == len(Append) clause of the same history belongs to C05
+func H05m_MapMutate() { H06m_MapMutate() }
